@@ -29,6 +29,10 @@ def gen_project(rng, nmods=None, rich=True):
     names = names[:nmods]
     rng.shuffle(names)
     mods = []
+    if rng.random() < 0.3:
+        # a package nothing imports from directly (only optional sub-modules of it are asked for, and may appear later)
+        mods.append({'name': 'zqlone', 'version': 1, 'iface': {'classes': [], 'funcs': [], 'insts': [], 'multis': [], 'attrs': []},
+                     'items': [], 'init': True})
     for nm in names:
         for pk in PKG_INITS.get(nm, []):
             if not any(m['name'] == pk for m in mods):
@@ -117,6 +121,10 @@ def fill_module(rng, mod, earlier):
     if pkgs and rng.random() < 0.25:
         # optional sub-module of an existing package, imported as an attribute of the package
         items.append(['tryfrom', rng.choice(pkgs), 'zqlsub_' + s])
+    if pkgs and rng.random() < 0.2:
+        # optional sub-module imported by its full name: the package itself is not loaded by this statement
+        pk = 'zqlone' if 'zqlone' in pkgs and rng.random() < 0.8 else rng.choice(pkgs)
+        items.append(['tryfromsub', pk, 'zqlsub_x' + s, 'KL_zqlsub_x' + s])
     classes_here = []
     for i, k in enumerate(mod['iface']['classes']):
         bases = []
@@ -225,6 +233,11 @@ def render(mod):
             out.append('    from %s import %s' % (it[1], it[2]))
             out.append('except ImportError:')
             out.append('    %s = None' % it[2])
+        elif k == 'tryfromsub':
+            out.append('try:')
+            out.append('    from %s.%s import %s' % (it[1], it[2], it[3]))
+            out.append('except ImportError:')
+            out.append('    %s = None' % it[3])
         elif k == 'class':
             out.append('class %s(%s):' % (it[1], ', '.join(it[2])) if it[2] else 'class %s(object):' % it[1])
             for a in it[3]:
@@ -350,6 +363,8 @@ def origins(spec):
                 o[it[1]] = it[1]
             elif k == 'tryfrom':
                 o[it[2]] = it[1] + '.' + it[2]
+            elif k == 'tryfromsub':
+                o[it[3]] = it[1] + '.' + it[2]
             elif k in ('class', 'func', 'cfunc', 'lfunc', 'assign', 'multi'):
                 o[it[1]] = m['name']
         out[m['name']] = o
@@ -377,6 +392,8 @@ def exports(spec):
                 add(it[1], 'module')
             elif k == 'tryfrom':
                 add(it[2], 'module')
+            elif k == 'tryfromsub':
+                add(it[3], 'class')
             elif k == 'from':
                 tgt = _absolute(m['name'], it[1])
                 kind = dict(table.get(tgt, [])).get(it[2], 'var')
